@@ -122,16 +122,36 @@ def execute(case, loop):
     _helpers, peer_attr, setter, peer_cls_name = CLASSES[cname]
     cls = getattr(s, cname)
     peer_cls = getattr(s, peer_cls_name)
+    disp = case.get('dispatch') or []
+    hook = {'fn': None, 'out': None, 'seen': []}
+    if disp or 'dispatch' in case:
+        cls = handling_class(cls, hook)
     obj = cls(case['reg'])
     stub = Stub(peer_cls, case.get('ret', 0), case.get('peer_state', 0))
     getattr(obj, setter)(stub)
     pos, kw, given = build_call(case)
     obs = {'given': given, 'obj': obj, 'stub': stub, 'exc': None, 'result_ok': None, 'bound': None,
            'method': None, 'ncalls': 0, 'ns_before': obj.namespace, 'ns_after': None, 'second': None,
-           'returned': None, 'stub_returned': None}
+           'returned': None, 'stub_returned': None, 'dispatched': None}
     try:
-        fn = getattr(obj, helper)
-        r = fn(*pos, **kw)
+        inside = bool(case.get('inside')) and bool(disp)
+        for k, ns in enumerate(disp):
+            if inside and k == len(disp) - 1:       # the helper is called from the handler of the last event
+                hook['fn'] = lambda: getattr(obj, helper)(*pos, **kw)
+            dispatch_event(obj, cname, case['reg'], ns, k, loop)
+        obs['dispatched'] = [list(map(repr, a)) for a in hook['seen']]
+        if len(hook['seen']) != len(disp):
+            raise RuntimeError('%d events dispatched through trigger_event, the handler method ran %d times'
+                               % (len(disp), len(hook['seen'])))
+        if inside:
+            if hook['out'] is None:
+                raise RuntimeError('the handler of the dispatched event did not call the helper')
+            if hook['out'][0] == 'exc':
+                raise hook['out'][1]
+            r = hook['out'][1]
+        else:
+            fn = getattr(obj, helper)
+            r = fn(*pos, **kw)
         if inspect.iscoroutine(r):          # what `await ns.helper(…)` gives the application
             r = loop.run_until_complete(r)
         if inspect.iscoroutine(r):          # an un-awaited inner coroutine: not the result; just dispose of it
@@ -161,6 +181,48 @@ def execute(case, loop):
             except TypeError as ex:
                 obs['exc'] = 'call does not fit %s.%s: %s' % (peer_cls_name, name, ex)
     return obs
+
+
+def handling_class(cls, hook):
+    """subclass of the real namespace class with an `on_ev` handler method: records what `trigger_event` hands it and,
+    when `hook['fn']` is armed, makes that call from INSIDE the handler (what an application's handler does)"""
+    if inspect.iscoroutinefunction(cls.trigger_event):
+        class Handling(cls):
+            async def on_ev(self, *args):
+                hook['seen'].append(args)
+                fn, hook['fn'] = hook['fn'], None
+                if fn is not None:
+                    try:
+                        r = fn()
+                        if inspect.iscoroutine(r):
+                            r = await r
+                        hook['out'] = ('ok', r)
+                    except Exception as ex:      # noqa
+                        hook['out'] = ('exc', ex)
+    else:
+        class Handling(cls):
+            def on_ev(self, *args):
+                hook['seen'].append(args)
+                fn, hook['fn'] = hook['fn'], None
+                if fn is not None:
+                    try:
+                        hook['out'] = ('ok', fn())
+                    except Exception as ex:      # noqa
+                        hook['out'] = ('exc', ex)
+    Handling.__name__ = cls.__name__
+    return Handling
+
+
+def dispatch_event(obj, cname, reg, ns, k, loop):
+    """what the server / client does with an incoming event for this object (`_trigger_event`):
+    `handler.trigger_event(event, *args)`, the concrete namespace prepended for a catch-all ('*') object
+    (`_get_namespace_handler`)"""
+    args = (['sid-%d' % k] if CLASSES[cname][1] == 'server' else []) + [{'n': k}]
+    if reg == '*':
+        args = [ns] + args
+    r = obj.trigger_event('ev', *args)
+    if inspect.iscoroutine(r):
+        loop.run_until_complete(r)
 
 
 def second_call(case, obj, stub, peer_cls, loop):
@@ -226,8 +288,10 @@ def oracle(case, obs):
         else:
             got = sec['bound'].get('namespace', '<absent>')
             if not same_ns(got, case['reg'] or '/'):
-                bad.append('after a call with an explicit namespace, %s() with the namespace omitted goes to %r '
-                           'instead of the registered %r' % (sec['helper'], got, case['reg'] or '/'))
+                bad.append('after %s, %s() with the namespace omitted goes to %r '
+                           'instead of the registered %r' % (
+                               'handling events dispatched from %r' % (case['dispatch'],) if case.get('dispatch')
+                               else 'a call with an explicit namespace', sec['helper'], got, case['reg'] or '/'))
             if not same_ns(sec['ns_after'], obs['ns_before']):
                 bad.append('.namespace changed to %r after the follow-up call' % (sec['ns_after'],))
     tsig = inspect.signature(getattr(getattr(s, peer_cls_name), helper))
@@ -332,8 +396,11 @@ def describe(case):
     return {'cls': case['cls'], 'helper': case['helper'], 'reg': case['reg'], 'npos': case['npos'],
             'given': case['given'], 'order': case.get('order', 'helper'), 'ret': case.get('ret', 0),
             'peer_state': case.get('peer_state', 0),
+            **({'dispatch': case['dispatch'], 'inside': bool(case.get('inside'))} if 'dispatch' in case else {}),
             'then': case.get('then'), 'underlying_method_returns': repr(make_result(case.get('ret', 0), case['helper'])),
-            'call': '%s(%r).%s(%s)' % (case['cls'], case['reg'], case['helper'], ', '.join(
+            'call': ('events dispatched through trigger_event from namespaces %r, then %s: ' % (
+                case['dispatch'], 'inside the handler of the last one' if case.get('inside') else 'afterwards')
+                if case.get('dispatch') else '') + '%s(%r).%s(%s)' % (case['cls'], case['reg'], case['helper'], ', '.join(
                 [repr(make_value(d)) for _p, d in case['given'][:case['npos']]] +
                 ['%s=%r' % (p, make_value(d)) for p, d in case['given'][case['npos']:]])) + (
                 '; then .%s(<required arguments>)' % case['then'] if case.get('then') else '')}
@@ -444,6 +511,20 @@ def result_and_sequence_cases(cname, helper, counter):
     with_ns = [h for h in helpers if getattr(getattr(s, cname), h, None) is not None and
                'namespace' in [p for p, _ in sig_params(getattr(getattr(s, cname), h))[0]]]
     seconds = sorted(set([helper] + with_ns[:2] + with_ns[-2:]), key=with_ns.index)
+    # (d) the object first HANDLES events (real trigger_event, called as the server / client calls it: concrete
+    # namespace prepended for a catch-all object) from 0, 1 or 2 different concrete namespaces; then — inside the
+    # handler of the last event, or afterwards — the helper is called with the namespace omitted (or explicit), and
+    # then a second helper with the namespace omitted: "the namespace the object was registered for" does not
+    # depend on what the object has handled
+    for reg in ('*', '*', REG_NAMESPACES[counter[0] % len(REG_NAMESPACES)]):
+        for disp in ([], ['/chat'], ['/chat', '/other'], ['/other', '/chat', '/other']):
+            for inside in ((False, True) if disp else (False,)):
+                counter[0] += 1
+                explicit = counter[0] % 4 == 0
+                yield {'cls': cname, 'helper': helper, 'reg': reg, 'ret': counter[0] % N_RESULTS,
+                       'given': base + ([['namespace', ['s', 'namespace']]] if explicit else []),
+                       'npos': (0, len(required))[counter[0] % 2], 'order': 'dispatched',
+                       'dispatch': disp, 'inside': inside, 'then': seconds[counter[0] % len(seconds)]}
     for h2 in seconds:
         for npos in (0, len(required)):
             counter[0] += 1
@@ -472,6 +553,9 @@ REG_REAL_NAMES = REG_NAMESPACES + [
 ]
 
 
+DISPATCH_FROM = ['/c17-chat', '/c17-other']      # concrete namespaces no object is registered for
+
+
 def reg_effective(name):
     return name or '/'
 
@@ -483,6 +567,9 @@ def reg_cases(ctx):
     for peer in PEERS:
         for name in REG_REAL_NAMES:
             yield {'peer': peer, 'names': [name], 'again': None}
+        for name in ('*', '/reg', None, 'chat'):
+            for nd in (1, 2, 3):
+                yield {'peer': peer, 'names': [name], 'again': None, 'dispatch': nd}
         for _ in range(ctx.scale(12, 120)):
             pool = list(REG_REAL_NAMES)
             rng.shuffle(pool)
@@ -493,8 +580,11 @@ def reg_cases(ctx):
                     names.append(n)
                 if len(names) == rng.randint(2, 4):
                     break
+            if '*' not in names and rng.random() < 0.4:
+                names[rng.randrange(len(names))] = '*'
             yield {'peer': peer, 'names': names,
-                   'again': rng.randrange(len(names)) if rng.random() < 0.3 else None}
+                   'again': rng.randrange(len(names)) if rng.random() < 0.3 else None,
+                   'dispatch': rng.randrange(4)}
 
 
 def reg_keys(peer, obj):
@@ -509,11 +599,18 @@ def reg_execute(case, loop):
     ns_cname, helpers, attr = PEERS[case['peer']]
     ns_cls = getattr(s, ns_cname)
     peer = peer_cls()
-    out = {'objects': [], 'rejected': []}
+    out = {'objects': [], 'rejected': [], 'handled': []}
     objs = []
+    handled = out['handled']
+
+    class Handling(ns_cls):
+        def on_ev(self, *args):
+            handled.append([self.c17_name, list(args)])
+    Handling.__name__ = ns_cls.__name__
     for name in case['names']:
         try:
-            obj = ns_cls(name)
+            obj = Handling(name)
+            obj.c17_name = name
             peer.register_namespace(obj)
         except Exception as ex:      # noqa — a name the library refuses is outside the domain
             out['rejected'].append([name, type(ex).__name__])
@@ -524,6 +621,24 @@ def reg_execute(case, loop):
             peer.register_namespace(objs[case['again']][1])
         except Exception as ex:      # noqa
             out['rejected'].append([objs[case['again']][0], 'again: ' + type(ex).__name__])
+    # events arrive before the helpers are used: through the peer's real `_trigger_event(event, namespace, *args)`,
+    # for an ordinary object on the key it is filed under, for a catch-all object on concrete namespaces nobody
+    # registered (DISPATCH_FROM); what the handler methods received is judged by the oracle too
+    out['expected_handled'] = []
+    for k in range(case.get('dispatch') or 0):
+        for name, obj in objs:
+            keys = reg_keys(peer, obj)
+            if len(keys) != 1:
+                continue
+            ns = DISPATCH_FROM[k % len(DISPATCH_FROM)] if keys[0] == '*' else keys[0]
+            args = (['sid-%d' % k] if attr == 'server' else []) + [{'n': k}]
+            try:
+                r = peer._trigger_event('ev', ns, *args)
+                if inspect.iscoroutine(r):
+                    loop.run_until_complete(r)
+            except Exception as ex:      # noqa
+                out['rejected'].append([name, 'dispatch: ' + type(ex).__name__])
+            out['expected_handled'].append([name, ([ns] if keys[0] == '*' else []) + args])
     calls = []
 
     def recorder(hname, real):
@@ -573,6 +688,9 @@ def reg_execute(case, loop):
 
 def reg_oracle(case, out):
     bad = []
+    if out.get('expected_handled') is not None and out['handled'] != out['expected_handled']:
+        bad.append('events dispatched through the real %s._trigger_event reached the handler methods as %r, '
+                   'expected %r' % (case['peer'], out['handled'][:4], out['expected_handled'][:4]))
     for o in out['objects']:
         keys = o['keys']
         who = '%s(%r) registered with the real %s.register_namespace' % (PEERS[case['peer']][0], o['name'], case['peer'])
@@ -593,8 +711,9 @@ def reg_oracle(case, out):
             elif not same_ns(r['namespace'], key):
                 wrong.setdefault(repr(r['namespace']), []).append(h)
         for got, hs in wrong.items():
-            bad.append('%s is registered for %r, but with the namespace omitted %s go to %s'
-                       % (who, key, ', '.join(hs), got))
+            bad.append('%s is registered for %r, but%s with the namespace omitted %s go to %s'
+                       % (who, key, ' after handling %d dispatched event(s)' % case['dispatch']
+                          if case.get('dispatch') else '', ', '.join(hs), got))
     return bad
 
 
@@ -769,6 +888,9 @@ def run_registration(ctx, loop):
         n_objs += len(out['objects'])
         n_helper_calls += sum(len(o['helpers']) for o in out['objects'])
         ctx.count('registration.peer.' + case['peer'])
+        if case.get('dispatch'):
+            ctx.count('registration.events_handled_before_helpers.%s' % (
+                'with_catch_all_object' if '*' in case['names'] else 'ordinary_objects_only'))
         for o in out['objects']:
             ctx.count('registration.name.' + ('default' if reg_effective(o['name']) == '/' else 'catch_all'
                                               if o['name'] == '*' else 'leading_slash' if o['name'].startswith('/')
@@ -804,7 +926,8 @@ def run_registration(ctx, loop):
         'rule': 'real Server/AsyncServer/Client/AsyncClient().register_namespace(obj) for every name alone and random '
                 'groups of 2-4 objects on one peer (one sometimes registered twice): obj is reachable under exactly one '
                 'key of namespace_handlers, that key == obj.namespace, and every helper called with the namespace omitted '
-                'passes that key to the (wrapped) real peer; end to end on ServerWorld (sync and asyncio): CONNECT to the '
+                'passes that key to the (wrapped) real peer — also after 1-3 events were dispatched to the objects through '
+                'the real _trigger_event (catch-all objects: from two concrete namespaces); end to end on ServerWorld (sync and asyncio): CONNECT to the '
                 'key (when the real codec can carry it) is accepted, on_connect / on_ev of the object call emit, send, '
                 'enter_room, rooms, save_session, get_session with the namespace omitted and the packets / membership / '
                 'session appear on that same namespace',
@@ -915,6 +1038,10 @@ def run(ctx):
                     ctx.count('cls.' + cname)
                     ctx.count('positional_order.' + case.get('order', 'helper'))
                     ctx.count('given_args.%d' % len(case['given']))
+                    if 'dispatch' in case:
+                        ctx.count('events_handled_before_call.%s.%d_namespaces%s' % (
+                            'catch_all' if case['reg'] == '*' else 'ordinary', len(set(case['dispatch'])),
+                            '.called_inside_handler' if case.get('inside') and case['dispatch'] else ''))
                     if any(d[0] == 'f' for _p, d in case['given']):
                         n_nontrivial += 1
                     complaints = oracle(case, obs)
@@ -985,6 +1112,9 @@ def run(ctx):
                 'in the parameter order of the target method and of the twin class; the stub returns each of %d kinds of '
                 'result (one-element list/tuple, nested, None, falsy …) for every helper; two-call sequences on one object '
                 '(explicit namespace, then a helper with the namespace omitted), .namespace compared after every call; '
+                'objects registered for "*" and for an ordinary namespace that first handle events through the real '
+                'trigger_event (called as the server / client calls it) from 0, 1, 2 concrete namespaces, the helper then '
+                'called inside the handler of the last event or afterwards, and a second helper afterwards; '
                 'explicit namespace overrides "/", "/other", the registered one, … on objects registered for a '
                 'non-default namespace, for every helper with a namespace parameter; '
                 'registered namespace rotates over ' % N_RESULTS + 
